@@ -39,6 +39,24 @@ type Package struct {
 	Name  string
 	Files map[string]string
 	Cases []Case
+	// Prelude is the text after the package clause that every case may rely on (imports, shared types)
+	Prelude string
+}
+
+// Singletons splits a package into one package per case (used to isolate the case that crashes goose).
+func (p *Package) Singletons() []*Package {
+	var out []*Package
+	for i, c := range p.Cases {
+		q := &Package{Name: fmt.Sprintf("%ss%d", p.Name, i), Files: map[string]string{}, Prelude: p.Prelude}
+		src := "package " + q.Name + "\n\n" + p.Prelude + "\n"
+		from := strings.Count(src, "\n") + 1
+		src += c.Src + "\n"
+		c.File, c.FromLine, c.ToLine = "gen.go", from, strings.Count(src, "\n")
+		q.Files["gen.go"] = src
+		q.Cases = []Case{c}
+		out = append(out, q)
+	}
+	return out
 }
 
 type Driver struct {
@@ -98,7 +116,7 @@ type ConvError struct {
 	Line     int
 }
 
-var errHead = regexp.MustCompile(`^\[([a-z()\-]+)\]: (.*)$`)
+var errHead = regexp.MustCompile(`^(?:conversion failed: )?\[([a-z()\-]+)\]: (.*)$`)
 var errSrc = regexp.MustCompile(`^\s+src: (.*?):(\d+):(\d+)$`)
 
 func parseErrors(stderr string) []ConvError {
